@@ -106,7 +106,7 @@ theorem updateAfterWrite_log (f : FileH) (d : Dev) {r d'} (hr : run f.updateAfte
       have h2' : run (Prog.pure _) d1 = (r, d') := h2
       simp only [run] at h2'
       cases h1; cases h2'
-      split <;> rfl
+      rfl
     · simp only [Prog.now, run, stepOp] at h1; cases h1
   · have hr' : run (Prog.pure f) d = (r, d') := hr
     simp only [run] at hr'; cases hr'; rfl
